@@ -20,12 +20,37 @@ CERTS = [None] + [(ncn, eku) for ncn in SHAPES
                   for eku in (None, ('server',), ('client',),
                               ('server', 'client'), ('any',),
                               ('server', 'any'), ('email', 'codesign'))]
+# names that are not common names: subject alternative names and other
+# subject attributes carrying a user's name establish no identity, and do
+# not disturb the one the common name establishes
+NOT_CN = [
+    {'cns': (), 'san_dns': ('cn0',)},
+    {'cns': (), 'san_email': ('cn0',)},
+    {'cns': (), 'san_dns': ('cn0',), 'san_email': ('cn0',)},
+    {'cns': (), 'attrs': (('USER_ID', 'cn0'), ('SURNAME', 'cn0'),
+                          ('EMAIL_ADDRESS', 'cn0'),
+                          ('ORGANIZATIONAL_UNIT_NAME', 'cn0'))},
+    {'cns': ('cn0',), 'san_dns': ('cn1',), 'san_email': ('cn1',)},
+    {'cns': ('cn0',), 'attrs': (('USER_ID', 'cn1'), ('SURNAME', 'cn1'))},
+    {'cns': ('cn0', 'cn1'), 'san_dns': ('cn0',)},
+]
+CERTS += [(sh, ('client',)) for sh in NOT_CN]
 
 
 def names_of(shape):
+    if isinstance(shape, dict):
+        return tuple(shape['cns'])
     if isinstance(shape, (tuple, list)):
         return tuple(shape)
     return tuple('cn%d' % i for i in range(shape))
+
+
+def extras_of(shape):
+    if isinstance(shape, dict):
+        return dict((k, [list(x) if isinstance(x, tuple) else x
+                         for x in v])
+                    for k, v in shape.items() if k != 'cns')
+    return None
 
 
 TLS = [True, False]
@@ -432,7 +457,8 @@ def execute(plan):
         else:
             der = None
             if cert is not None:
-                der = net.make_certificate(names_of(cert[0]), cert[1])
+                der = net.make_certificate(names_of(cert[0]), cert[1],
+                                           extras_of(cert[0]))
             conn = net.FakeConnection(der)
             s = make_session(conn, tls, plugins)
         if s is None:
